@@ -19,12 +19,16 @@ STATEMENTS = [
  "SELECT COUNT(DISTINCT k) FROM t",
  "SELECT k, v FROM t WHERE k = 'é€ß' AND v > 1 LIMIT 2",
  "CREATE TABLE n(line = 'naïve=(\\d+) «x»', line[1] => x INT, 'ü(.)' => y TEXT);",
+ # a minus sign in front of a literal is an operator of its own wherever the blank falls: before a cast, after another minus, in a comparison, before a LIMIT-like number
+ "SELECT -1::text, -2.5::int, 3 - -4, abs(-v)::text FROM t WHERE v = -1 OR -v::text != '1' LIMIT 7",
 ]
 
 VOCAB = ["SELECT", "FROM", "WHERE", "GROUP", "BY", "HAVING", "LIMIT", "CREATE", "TABLE", "NOT", "IS", "IN", "AND", "CASE", "WHEN", "END",
          "INNER", "JOIN", "ON", "EXTRACT", "DISTINCT", "AS", "k", "t", "count", "array", "1", "2.5", "99999999999999999999", "'s'", "'('", "NULL",
          "(", ")", "[", "]", "{", "}", ",", ";", ":", "::", "=>", "=", "-", "*", ".", "<", "!", "--", "'"]
-BAD = ["CREATE TABLE t(line = 'a', spare = '(', line[1] => x TEXT);",      # an invalid pattern that no column refers to
+BAD = ["CREATE TABLE a(l = 'x', l[1] => x TEXT);\nCREATE TABLE b(m = '(', m[1] => y TEXT);",      # several definitions of which one has a pattern that is no regular expression
+       "CREATE TABLE b(m = '[a', m[1] => y TEXT);\nCREATE TABLE a(l = 'x', l[1] => x TEXT);\nCREATE TABLE c(n = 'y', n[1] => z INT);",
+       "CREATE TABLE t(line = 'a', spare = '(', line[1] => x TEXT);",      # an invalid pattern that no column refers to
        "CREATE TABLE t(spare = '[a', { .a } => x INT);",
        "CREATE TABLE t('(' => x TEXT);",
        "CREATE TABLE t(line = '[a-', line[1] => x TEXT);",
